@@ -77,6 +77,42 @@ def scenarios():
             br("G", {"G": task("bad")})]}}},
         tasks={"flaky": lambda p, n: {"errorType": "Oops", "errorMessage": "again"}, "bad": lambda p, n: BOOM},
         want=("FAILED", None, None))
+    # I: nested Parallel states: the OUTER one fails while the inner one's branches are in flight; their queued events,
+    # replies and terminal states must not carry the dead execution any further
+    sc["nested-outer-fails"] = dict(
+        asl={"StartAt": "P", "States": {"P": {"Type": "Parallel", "End": True, "Branches": [
+            br("Q", {"Q": {"Type": "Parallel", "End": True, "Branches": [
+                br("A1", {"A1": task("good", end=False, nxt="A2"), "A2": task("good2")}), br("B1", {"B1": task("good")})]}}),
+            br("F", {"F": task("bad")})]}}},
+        tasks={"bad": lambda p, n: BOOM, "good": lambda p, n: {"ok": 1}, "good2": lambda p, n: {"ok": 2}},
+        want=("FAILED", "Boom", None))
+    # J: nested Parallel states: the INNER one fails and is caught by its own Catch; the healthy outer one must still join
+    # with the fallback's output in the inner state's position and the sibling's output untouched
+    sc["nested-inner-caught"] = dict(
+        asl={"StartAt": "P", "States": {"P": {"Type": "Parallel", "Next": "After", "Branches": [
+            br("Q", {"Q": {"Type": "Parallel", "Next": "Done", "Catch": [{"ErrorEquals": ["States.ALL"], "Next": "Rec"}], "Branches": [
+                br("A1", {"A1": task("bad")}), br("B1", {"B1": task("good", end=False, nxt="B2"), "B2": task("good2")})]},
+                     "Done": {"Type": "Pass", "End": True}, "Rec": task("fallback")}),
+            br("O", {"O": task("good")})]},
+            "After": {"Type": "Pass", "End": True}}},
+        tasks={"bad": lambda p, n: BOOM, "good": lambda p, n: {"ok": 1}, "good2": lambda p, n: {"ok": 2}, "fallback": lambda p, n: {"rec": 1}},
+        want=("SUCCEEDED", None, [{"rec": 1}, {"ok": 1}]), exact_output=True)
+    # K: a Map with MaxConcurrency fails in a batch that is not the last one: the iterations that were never started do not
+    # count as outstanding, the execution fails once and releases its join state
+    sc["map-batched-fails-early"] = dict(
+        asl={"StartAt": "M", "States": {"M": {"Type": "Map", "ItemsPath": "$.items", "MaxConcurrency": 2, "End": True,
+                                             "ItemProcessor": br("W", {"W": task("work")})}}},
+        data={"items": [1, 2, 3, 4, 5]},
+        tasks={"work": lambda p, n: (BOOM if p == 1 else {"done": p})},
+        want=("FAILED", "Boom", None))
+    # L: the same inside a Parallel branch, with a long-form (arn:aws:states:...:rpcmessage:invoke) sibling still waiting
+    sc["long-form-sibling"] = dict(
+        asl={"StartAt": "P", "States": {"P": {"Type": "Parallel", "End": True, "Branches": [
+            br("F", {"F": task("bad")}),
+            br("L", {"L": {"Type": "Task", "Resource": "arn:aws:states:local::rpcmessage:invoke",
+                           "Parameters": {"FunctionName": FN + "good", "Payload": {"a": 1}}, "Next": "L2"}, "L2": task("good2")})]}}},
+        tasks={"bad": lambda p, n: BOOM, "good": lambda p, n: {"ok": 1}, "good2": lambda p, n: {"ok": 2}},
+        want=("FAILED", "Boom", None))
     return sc
 
 
@@ -110,6 +146,8 @@ def failures(seed=0, tier="quick", only=None, **_):
                 probs.append("C06: recorded error %r, the failing branch's error is %r" % (rec.get("error"), error))
             if output is not None and not contains(sim.output(), output):
                 probs.append("C01/C06: output %r does not contain %r" % (sim.output(), output))
+            if output is not None and sc.get("exact_output") and sim.output() != output:
+                probs.append("C05/C06: output %r, the join of the surviving branches gives %r" % (sim.output(), output))
             for f in sc.get("forbid_calls", []):
                 if any(c[0] == f for c in sim.task_calls):
                     probs.append("C06/C08: task %r ran although its branch was cancelled" % f)
